@@ -24,6 +24,7 @@ const pagPkg = "collection/pagination"
 func runC19(c *Ctx) {
 	c.rule("E1", "a return reached only on the non-nil side of a test of a callee's error must not return a nil error (constructor failures are reported)", 10)
 	c.rule("E9", "in a function that can report an error, the error obtained from a callee goes somewhere: into a return, a call or a store — it is not merely looked at", 12)
+	c.rule("E10", "the polling loop of the stream paginator's HasNext consults the paginator's context in every iteration and answers false once it is done", 1)
 	c.rule("E2", "HasNext/GetNext consult the paginator's context first: the DetermineContextError(a.ctx) test dominates every other call, and its failing side answers false / the error", 2)
 	c.rule("E3", "HasNext returns true only on the true side of the current iterator's HasNext, or as the result of its own recursion after fetchNextPage succeeded", 2)
 	c.rule("E8", "HasNext consults the paginator's context again between the return of a page fetch and any answer that can be true", 1)
@@ -43,6 +44,7 @@ func runC19(c *Ctx) {
 	c.c19Cursor()
 	c.c19Stop()
 	c.c19Stream()
+	c.c19StreamStops()
 }
 
 // errDeadRule (E9): E1 looks at returns that lie wholly on the failing side of a test. A failure can also vanish without
@@ -764,4 +766,87 @@ func (c *Ctx) c19Stream() {
 		})
 		c.check(good && n > 0, "E7", fname(g)+"/item", c.pos(g.Pos()), "items only from AbstractPaginator.GetNext", "the stream paginator returns an item that does not come from AbstractPaginator.GetNext")
 	}
+}
+
+// c19StreamStops (E10): "after Stop/Close or cancellation nothing more is yielded" — and the caller is told so. The loop of
+// the stream paginator's HasNext ends when an item shows up, when the stream has no future, when a fetch fails or when the
+// grace period of a drying stream is over. After Stop() none of these need ever happen (a fetch function that does not look
+// at the context, a page whose HasFuture() stays true), and the sleeps return at once: the loop must test the context itself.
+func (c *Ctx) c19StreamStops() {
+	f := c.fn(pagPkg, "(*AbstractStreamPaginator).HasNext")
+	if f == nil {
+		return
+	}
+	key := fname(f) + "/loop-consults-context"
+	var gates []*ssa.Call
+	allInstrs(f, func(in ssa.Instruction) {
+		cl, ok := in.(*ssa.Call)
+		if !ok || !inLoop(cl) {
+			return
+		}
+		var ctxV ssa.Value
+		switch {
+		case calleeFull(&cl.Call) == detCtxErr:
+			ctxV = cl.Call.Args[0]
+		case cl.Call.IsInvoke() && cl.Call.Method.Name() == "Err" && strings.HasSuffix(cl.Call.Value.Type().String(), "context.Context"):
+			ctxV = cl.Call.Value
+		default:
+			return
+		}
+		// the context of the paginator: s.GetContext() or the ctx field
+		fromPaginator := false
+		for _, l := range sources(ctxV, deriveOpts{}) {
+			if isCtxFieldLoad(l) {
+				fromPaginator = true
+			}
+			if g, isCall := l.(*ssa.Call); isCall && strings.HasSuffix(calleeFull(&g.Call), ".GetContext") {
+				fromPaginator = true
+			}
+		}
+		if !fromPaginator {
+			return
+		}
+		// its failing side answers false
+		for _, b := range f.Blocks {
+			ifi, isIf := b.Instrs[len(b.Instrs)-1].(*ssa.If)
+			if !isIf {
+				continue
+			}
+			x, nilSucc, isNil := nilTest(ifi)
+			if !isNil || x != ssa.Value(cl) {
+				continue
+			}
+			t := b.Succs[1-nilSucc]
+			for len(t.Instrs) == 1 && len(t.Succs) == 1 {
+				t = t.Succs[0]
+			}
+			if r, isRet := t.Instrs[len(t.Instrs)-1].(*ssa.Return); isRet {
+				if v, isC := constBool(r.Results[0]); isC && !v {
+					gates = append(gates, cl)
+				}
+			}
+		}
+	})
+	if len(gates) == 0 {
+		c.violate("E10", key, c.pos(f.Pos()), "the loop that waits for future pages never tests the paginator's context: after Stop() (or cancellation), with a stream whose page keeps reporting a future and a fetch function that does not look at the context, HasNext polls for ever — the sleeps between polls return at once on a done context")
+		return
+	}
+	// no cycle avoids the gate
+	hdr := loopHeaderOf(gates[0])
+	isGate := func(i ssa.Instruction) bool {
+		for _, g := range gates {
+			if ssa.Instruction(g) == i {
+				return true
+			}
+		}
+		return false
+	}
+	var cyc ssa.Instruction
+	if hdr != nil {
+		first := hdr.Instrs[0]
+		// from just after the header's first instruction back to it
+		cyc = pathPruned(f, first, isGate, func(i ssa.Instruction) bool { return i == first }, nil)
+	}
+	c.check(cyc == nil, "E10", key, c.ipos(gates[0]), "every iteration of the polling loop tests the paginator's context; done → false",
+		"an iteration of the polling loop can go round without testing the paginator's context: after Stop() the loop can keep polling")
 }
